@@ -536,6 +536,18 @@ def step_check(root, history, target, op):
     bad = compare(las, newm)
     for what, exp, got in bad[:3]:
         vio.append(viol("model-mismatch", what, history, target, op, root, exp, got))
+    if not bad and op[0] in ("append", "insert"):
+        # after an insertion the items sharing the inserted name are numbered :1..:n in order (a single one keeps the bare name)
+        ci = bool(las.curves.mnemonic_transforms)
+        name = op[1] if op[0] == "append" else op[2]
+        u = "UNKNOWN" if not name.strip() else name
+        grp = [p for p, r in enumerate(newm) if ((("UNKNOWN" if not r["name"].strip() else r["name"]).upper() == u.upper()) if ci
+                                                 else (("UNKNOWN" if not r["name"].strip() else r["name"]) == u))]
+        keys_now = las.keys()
+        want = [(("UNKNOWN" if not newm[p]["name"].strip() else newm[p]["name"]) + (":%d" % (k + 1) if len(grp) > 1 else "")) for k, p in enumerate(grp)]
+        got = [keys_now[p] for p in grp]
+        if got != want:
+            vio.append(viol("keys-after-insertion", "keys() of the inserted name's group", history, target, op, root, want, got))
     if not bad and op[0] in ("set_data", "data_eq") and len(newm):
         # set_data re-assigns every name and re-numbers the whole section: keys() follow from the names alone
         # (an empty array is a no-op, but then the curve list is empty too)
